@@ -58,6 +58,7 @@ type delivery struct {
 }
 
 type recvLog struct {
+	panicAt int // >= 0: the handler panics instead of taking the delivery with this index
 	mu    sync.Mutex
 	dels  []delivery
 	n     int
@@ -65,7 +66,7 @@ type recvLog struct {
 	event chan struct{}
 }
 
-func newRecvLog() *recvLog { return &recvLog{event: make(chan struct{}, 1)} }
+func newRecvLog() *recvLog { return &recvLog{event: make(chan struct{}, 1), panicAt: -1} }
 
 func (r *recvLog) poke() {
 	select {
@@ -78,6 +79,11 @@ func (r *recvLog) poke() {
 // (the slice aliases the channel's reusable recving buffer).
 func (r *recvLog) onReceive(ch byte, msg []byte) {
 	r.mu.Lock()
+	if r.panicAt >= 0 && r.n == r.panicAt && ch != sentinelCh {
+		r.n++
+		r.mu.Unlock()
+		panic("lv-handler-panic")
+	}
 	r.dels = append(r.dels, delivery{ch, append([]byte{}, msg...)})
 	r.n++
 	r.mu.Unlock()
@@ -93,6 +99,10 @@ func muxErrClass(x interface{}) string {
 		return "unknownch"
 	case strings.Contains(m, "Unknown message type"):
 		return "unknowntype"
+	case strings.Contains(m, "pong timeout"):
+		return "pongtimeout"
+	case strings.Contains(m, "recovered panic"), strings.Contains(m, "lv-handler-panic"):
+		return "handlerpanic"
 	case strings.Contains(m, "EOF") || strings.Contains(m, "closed"):
 		return "closed"
 	}
@@ -196,6 +206,9 @@ func (e *exec) muxOp(toks []string) string {
 	capOf := map[int]int{}
 	for _, c := range cs {
 		capOf[c.id] = c.cap
+		if c.cap == 0 {
+			capOf[c.id] = 22020096 // FillDefaults
+		}
 	}
 	perCh := map[int][]spec{}
 	for _, it := range plan {
@@ -316,6 +329,9 @@ func (e *exec) mrawOp(toks []string) string {
 	}
 	a, b, _, _ := duplex(atoi(argS(toks, "k")), uint32(atoi(argS(toks, "seed"))), false, argS(toks, "j") == "1")
 	rl := newRecvLog()
+	if v := argS(toks, "panicat"); v != "" {
+		rl.panicAt = atoi(v)
+	}
 	all := append(append([]chanCfg{}, cs...), chanCfg{sentinelCh, 1, 16, 4})
 	mb := tmconn.NewMConnectionWithConfig(b, descs(all), rl.onReceive, rl.onError, mcfg(maxpay, 0))
 	if mb.Start() != nil {
@@ -374,7 +390,162 @@ WAIT:
 	if len(items) > 0 {
 		ds = strings.Join(items, ",")
 	}
+	if len(errs) > 1 {
+		er += fmt.Sprintf("x%d", len(errs)) // onError must fire once
+	}
 	return fmt.Sprintf("err=%s dels=%s", er, ds)
+}
+
+// mtry qcap=Q first=L0 n=K len=L seed=S: TrySend / CanSend against a send routine that is provably stuck in a flush
+// (the transport's write gate is closed and the first message is larger than the 64 KiB write buffer), so the queue
+// states are a function of the op: first Q attempts are taken, the rest refused, nothing blocks, nothing is reordered.
+func (e *exec) mtryOp(toks []string) string {
+	e.closeAll()
+	q, l0, k, l := atoi(argS(toks, "qcap")), atoi(argS(toks, "first")), atoi(argS(toks, "n")), atoi(argS(toks, "len"))
+	seed := atoi(argS(toks, "seed"))
+	if q < 1 || l0 < 70000 || l < 1 {
+		return "bad-op"
+	}
+	a, b, ab, _ := duplex(0, uint32(seed), false, false)
+	cs := []chanCfg{{id: 1, prio: 1, cap: 1 << 22, qcap: q}}
+	rl, rlA := newRecvLog(), newRecvLog()
+	ma := tmconn.NewMConnectionWithConfig(a, descs(cs), rlA.onReceive, rlA.onError, mcfg(1024, 0))
+	mb := tmconn.NewMConnectionWithConfig(b, descs(cs), rl.onReceive, rl.onError, mcfg(1024, 0))
+	ab.setGate(true)
+	if ma.Start() != nil || mb.Start() != nil {
+		return "err=start"
+	}
+	defer func() { ab.setGate(false); ma.Stop(); mb.Stop() }()
+	var sent [][]byte
+	m0 := genBytes("r", seed, l0)
+	if !ma.TrySend(1, m0) {
+		return "err=first-refused"
+	}
+	sent = append(sent, m0)
+	if !waitFor(func() bool { return ab.writersBlocked() > 0 }, 3*time.Second) {
+		return "err=not-blocked"
+	}
+	try, can := "", ""
+	t0 := time.Now()
+	for i := 0; i < k; i++ {
+		m := genBytes("r", seed+1+i, l)
+		if ma.TrySend(1, m) {
+			try += "1"
+			sent = append(sent, m)
+		} else {
+			try += "0"
+		}
+		if ma.CanSend(1) {
+			can += "1"
+		} else {
+			can += "0"
+		}
+	}
+	blockedFor := time.Since(t0)
+	// refused forms: empty message, unknown channel
+	extra := fmt.Sprintf("%v%v%v", ma.TrySend(1, nil), ma.TrySend(99, []byte{1}), ma.CanSend(99))
+	ab.setGate(false)
+	waitFor(func() bool { d, er := rl.snapshot(); return len(d) >= len(sent) || len(er) > 0 }, 8*time.Second)
+	time.Sleep(2 * time.Millisecond)
+	dels, errs := rl.snapshot()
+	er := "none"
+	if len(errs) > 0 {
+		er = errs[0]
+	}
+	var msgs [][]byte
+	for _, d := range dels {
+		msgs = append(msgs, d.msg)
+	}
+	nb := "false"
+	if blockedFor > 2*time.Second {
+		nb = "true" // a TrySend / CanSend blocked
+	}
+	return fmt.Sprintf("err=%s try=%s can=%s extra=%s blocked=%s n=%d d=%s", er, try, can, extra, nb, len(msgs), delDigest(msgs))
+}
+
+// mping mode=answer|silent: the ping / pong timers.  answer: a real peer with the default configuration answers the pings,
+// the connection lives; silent: the far side never answers, the pong timeout reports ONE error.
+func (e *exec) mpingOp(toks []string) string {
+	e.closeAll()
+	mode := argS(toks, "mode")
+	a, b, _, _ := duplex(atoi(argS(toks, "k")), uint32(atoi(argS(toks, "seed"))), false, argS(toks, "j") == "1")
+	cs := []chanCfg{{id: 1, prio: 1, cap: 0, qcap: 0}} // zero values: ChannelDescriptor.FillDefaults
+	cfg := mcfg(1024, 0)
+	cfg.PingInterval, cfg.PongTimeout = 25*time.Millisecond, 12*time.Millisecond
+	tap := &tapConn{Conn: a}
+	rlA, rlB := newRecvLog(), newRecvLog()
+	ma := tmconn.NewMConnectionWithConfig(tap, descs(cs), rlA.onReceive, rlA.onError, cfg)
+	if ma.Start() != nil {
+		return "err=start"
+	}
+	defer ma.Stop()
+	tapB := &tapConn{Conn: b}
+	if mode == "answer" {
+		mb := tmconn.NewMConnection(tapB, descs(cs), rlB.onReceive, rlB.onError) // default configuration
+		if mb.Start() != nil {
+			return "err=start"
+		}
+		defer mb.Stop()
+		ok := ma.Send(1, []byte("hello"))
+		waitFor(func() bool {
+			pa, _ := decodeAll(tap.bytes())
+			pb, _ := decodeAll(tapB.bytes())
+			d, _ := rlB.snapshot()
+			return countType(pa, "ping") >= 2 && countType(pb, "pong") >= 2 && len(d) >= 1
+		}, 2*time.Second)
+		pa, _ := decodeAll(tap.bytes())
+		pb, _ := decodeAll(tapB.bytes())
+		_, ea := rlA.snapshot()
+		d, eb := rlB.snapshot()
+		return fmt.Sprintf("sent=%v errsA=%d errsB=%d ping=%v pong=%v delivered=%d", ok, len(ea), len(eb), countType(pa, "ping") >= 2, countType(pb, "pong") >= 2, len(d))
+	}
+	// silent far side: reads and discards
+	go func() {
+		buf := make([]byte, 4096)
+		for {
+			if _, err := b.Read(buf); err != nil {
+				return
+			}
+		}
+	}()
+	waitFor(func() bool { _, er := rlA.snapshot(); return len(er) > 0 }, 2*time.Second)
+	time.Sleep(40 * time.Millisecond) // a second report would show up here
+	_, ea := rlA.snapshot()
+	first := "none"
+	if len(ea) > 0 {
+		first = ea[0]
+	}
+	return fmt.Sprintf("err=%s errs=%d running=%v", first, len(ea), ma.IsRunning())
+}
+
+func decodeAll(wire []byte) ([]tmconn.Packet, bool) {
+	r := bytes.NewReader(wire)
+	var out []tmconn.Packet
+	for r.Len() > 0 {
+		var p tmconn.Packet
+		if _, err := ser.DecodeReaderWithType(r, &p, 1<<24); err != nil {
+			return out, false
+		}
+		out = append(out, p)
+	}
+	return out, true
+}
+
+func countType(ps []tmconn.Packet, t string) int {
+	n := 0
+	for _, p := range ps {
+		switch p.(type) {
+		case tmconn.PacketPing:
+			if t == "ping" {
+				n++
+			}
+		case tmconn.PacketPong:
+			if t == "pong" {
+				n++
+			}
+		}
+	}
+	return n
 }
 
 // pktLimit mirrors MConnection.maxPacketMsgSize (unexported): encoded size of a full packet + 10
